@@ -164,6 +164,19 @@ func runUpload(c gcase) *enum.Outcome {
 		success = opErr == nil
 		sent = content
 	}
+	if !success {
+		// an aborted upload may still be in the hands of a server handler (GracefulStop does not wait for
+		// handlers): give it time to show its effect before the server is stopped. This only sharpens
+		// detection; a correct server never changes the key here, however long we wait.
+		for i := 0; i < 25; i++ {
+			b, err := db.Get(ctx, fkey)
+			changed := (c.Prev && (err != nil || !bytes.Equal(b, old))) || (!c.Prev && err == nil)
+			if changed {
+				break
+			}
+			time.Sleep(8 * time.Millisecond)
+		}
+	}
 	got, gerr, ierr := finalValue(srv, spec)
 	stopped = true
 	if ierr != nil {
